@@ -2304,6 +2304,10 @@ class ConvertPythonInstance:
         ), "only one converter instance can be active at a given time"
         _active_converter_instance = self
 
+        # function definitions capture the values of globals/nonlocals,
+        # they must not be reused by later compilations
+        FunctionDefinition._known_definitions.clear()
+
         _set_entity_instantiation_handler(self._entity_instantiation_handler)
         _on_register_inline_entity(self._register_inline_handler)
 
